@@ -63,18 +63,19 @@ def setS (c : RConn) (s : RStream) : RConn := { c with streams := c.streams.map 
 def setB (c : RConn) (b : Body) : RConn := { c with bodies := c.bodies.map fun x => if x.id == b.id then b else x }
 def dropS (c : RConn) (sid : Nat) : RConn := { c with streams := c.streams.filter fun x => !(x.id == sid) }
 
+/-- the WINDOW_UPDATE frame `sendWindowUpdate` writes: none when `inflow.add` batched the credit -/
+def refundOut (sid : Nat) (inc : Int) : List Rx := if inc = 0 then [] else [.wu sid inc.toNat]
+
 /-- `sendWindowUpdate(nil, n)` -/
 def connRefund (c : RConn) (n : Nat) : RConn × List Rx :=
   match c.inflow.add n with
-  | .ok (f, 0) => ({ c with inflow := f }, [])
-  | .ok (f, inc) => ({ c with inflow := f }, [.wu 0 inc.toNat])
+  | .ok (f, inc) => ({ c with inflow := f }, refundOut 0 inc)
   | .panic => (c, [.panic])
 
 /-- `sendWindowUpdate(st, n)` -/
 def streamRefund (c : RConn) (s : RStream) (n : Nat) : RConn × List Rx :=
   match s.inflow.add n with
-  | .ok (f, 0) => (setS c { s with inflow := f }, [])
-  | .ok (f, inc) => (setS c { s with inflow := f }, [.wu s.id inc.toNat])
+  | .ok (f, inc) => (setS c { s with inflow := f }, refundOut s.id inc)
   | .panic => (c, [.panic])
 
 /-- `closeStream`: the buffered, unread bytes go back to the connection window; the body ends -/
@@ -92,59 +93,81 @@ def streamErr (c : RConn) (sid code : Nat) : RConn × List Rx :=
   let (c, r) := closeStream c sid
   (c, [Rx.rst sid code] ++ r)
 
+/-- the branches of processData that do not accept the frame still charge the connection window and return the
+credit at once; `after` is what follows (RST_STREAM for a closed stream, a stream error otherwise) -/
+def chargeReturn (c : RConn) (sid L : Nat) (after : RConn → RConn × List Rx) : RConn × List Rx :=
+  if !(c.inflow.take L).2 then streamErr c sid FLOW_CONTROL else
+  let r := connRefund { c with inflow := (c.inflow.take L).1 } L
+  ((after r.1).1, r.2 ++ (after r.1).2)
+
+/-- `st.body.Write(data)` -/
+def buffer (c : RConn) (sid len : Nat) : RConn :=
+  match findB c sid with
+  | some b => setB c { b with buffered := b.buffered + len }
+  | none => c
+
+/-- the padding goes back at once, to the connection and to the stream (also called with 0: flushes batched credit) -/
+def padRefund (c : RConn) (sid n : Nat) : RConn × List Rx :=
+  let r1 := connRefund c n
+  let r2 := match findS r1.1 sid with
+    | some s => streamRefund r1.1 s n
+    | none => (r1.1, [])
+  (r2.1, r1.2 ++ r2.2)
+
+/-- the accepting branch of processData: both windows are charged, the data is buffered, the padding refunded;
+`none` = a window is exceeded -/
+def acceptData (c : RConn) (s : RStream) (sid len L : Nat) : Option (RConn × List Rx) :=
+  if L > 0 then
+    if !(takeInflows c.inflow s.inflow L).2.2 then none else
+    let c1 := setS { c with inflow := (takeInflows c.inflow s.inflow L).1 }
+      { s with inflow := (takeInflows c.inflow s.inflow L).2.1, bodyBytes := s.bodyBytes + len }
+    some (padRefund (buffer c1 sid len) sid (L - len))
+  else some (c, [])
+
+def markHalfClosed (c : RConn) (sid : Nat) : RConn :=
+  match findS c sid with | some s => setS c { s with state := .halfClosedRemote } | none => c
+
+def markEnded (c : RConn) (sid : Nat) : RConn :=
+  match findB c sid with | some b => setB c { b with ended := true } | none => c
+
+/-- `st.endStream()` -/
+def endStream (c : RConn) (sid : Nat) : RConn := markEnded (markHalfClosed c sid) sid
+
+/-- the handler read `k` bytes: `noteBodyRead` -/
+def noteRead (c : RConn) (b : Body) (sid k : Nat) : RConn × List Rx :=
+  let c := setB c { b with buffered := b.buffered - k }
+  let r1 := connRefund c k
+  let r2 := match findS r1.1 sid with
+    | some s => if s.state = RxState.open_ then streamRefund r1.1 s k else (r1.1, [])
+    | none => (r1.1, [])
+  (r2.1, [Rx.read k] ++ r1.2 ++ r2.2)
+
+/-- "sender tried to send more than declared Content-Length" -/
+def overDeclared (s : RStream) (len : Nat) : Bool :=
+  match s.declLen with
+  | some d => decide (s.bodyBytes + len > d)
+  | none => false
+
+/-- a new request stream: 1 MiB stream window, an empty body for its handler -/
+def openStream (c : RConn) (sid : Nat) (cl : Option Nat) : RConn :=
+  { c with streams := c.streams ++ [{ id := sid, inflow := { avail := 1048576 }, declLen := cl }],
+           bodies := c.bodies ++ [{ id := sid }] }
+
 def step (c : RConn) (e : RxEv) : RConn × List Rx :=
   if c.dead then (c, []) else
   match e with
-  | .open_ sid cl =>
-    ({ c with streams := c.streams ++ [{ id := sid, inflow := { avail := 1048576 }, declLen := cl }],
-              bodies := c.bodies ++ [{ id := sid }] }, [])
+  | .open_ sid cl => (openStream c sid cl, [])
   | .data sid len pad padded es =>
     let L : Nat := len + (if padded then pad + 1 else 0)
     match findS c sid with
-    | none =>
-      -- closed stream: the connection window is still charged and returned at once
-      let (f, ok) := c.inflow.take L
-      if !ok then streamErr c sid FLOW_CONTROL else
-      let (c, r) := connRefund { c with inflow := f } L
-      (c, r ++ [.rst sid STREAM_CLOSED])
+    | none => chargeReturn c sid L (fun c => (c, [.rst sid STREAM_CLOSED]))     -- closed stream
     | some s =>
-      if s.state ≠ .open_ then
-        let (f, ok) := c.inflow.take L
-        if !ok then streamErr c sid FLOW_CONTROL else
-        let (c, r) := connRefund { c with inflow := f } L
-        let (c, r2) := streamErr c sid STREAM_CLOSED
-        (c, r ++ r2)
-      else if (match s.declLen with | some d => decide (s.bodyBytes + len > d) | none => false) then
-        let (f, ok) := c.inflow.take L
-        if !ok then streamErr c sid FLOW_CONTROL else
-        let (c, r) := connRefund { c with inflow := f } L
-        let (c, r2) := streamErr c sid PROTOCOL
-        (c, r ++ r2)
+      if s.state ≠ .open_ then chargeReturn c sid L (fun c => streamErr c sid STREAM_CLOSED)
+      else if overDeclared s len then chargeReturn c sid L (fun c => streamErr c sid PROTOCOL)
       else
-        let res : Option (RConn × List Rx) :=
-          if L > 0 then
-            let (fc, fs, ok) := takeInflows c.inflow s.inflow L
-            if !ok then none else
-            let s := { s with inflow := fs, bodyBytes := s.bodyBytes + len }
-            let c := setS { c with inflow := fc } s
-            let c := match findB c sid with
-              | some b => setB c { b with buffered := b.buffered + len }
-              | none => c
-            -- the padding is returned at once (also called with 0: flushes buffered credit)
-            let (c, r1) := connRefund c (L - len)
-            let (c, r2) := match findS c sid with
-              | some s => streamRefund c s (L - len)
-              | none => (c, [])
-            some (c, r1 ++ r2)
-          else some (c, [])
-        match res with
+        match acceptData c s sid len L with
         | none => streamErr c sid FLOW_CONTROL
-        | some (c, r) =>
-          if es then
-            let c := match findS c sid with | some s => setS c { s with state := .halfClosedRemote } | none => c
-            let c := match findB c sid with | some b => setB c { b with ended := true } | none => c
-            (c, r)
-          else (c, r)
+        | some (c, r) => if es then (endStream c sid, r) else (c, r)
   | .rst sid =>
     match findS c sid with
     | some _ => closeStream c sid
@@ -155,14 +178,7 @@ def step (c : RConn) (e : RxEv) : RConn × List Rx :=
     | some b =>
       if b.returned then (c, [.wouldBlock]) else
       if b.buffered = 0 then (if b.ended then (c, [.readErr]) else (c, [.wouldBlock])) else
-      let k := min n b.buffered
-      let c := setB c { b with buffered := b.buffered - k }
-      -- noteBodyRead: the connection always gets the bytes back, the stream only while the peer may still send on it
-      let (c, r1) := connRefund c k
-      let (c, r2) := match findS c sid with
-        | some s => if s.state = RxState.open_ then streamRefund c s k else (c, [])
-        | none => (c, [])
-      (c, [Rx.read k] ++ r1 ++ r2)
+      noteRead c b sid (min n b.buffered)
   | .hret sid =>
     match findB c sid with
     | none => (c, [])
@@ -174,8 +190,7 @@ def step (c : RConn) (e : RxEv) : RConn × List Rx :=
       | some s =>
         if s.state = RxState.open_ then
           -- the response ends the stream before the request did: RST_STREAM(NO_ERROR), then closeStream
-          let (c, r) := closeStream c sid
-          (c, [Rx.rst sid 0] ++ r)
+          ((closeStream c sid).1, [Rx.rst sid 0] ++ (closeStream c sid).2)
         else closeStream c sid
 
 def run (c : RConn) : List RxEv → List (List Rx)
